@@ -110,6 +110,17 @@ pub fn run(a: &Args) {
                 }
             }
         }
+        // the error as a caller of the decoding loader sees and prints it (LoadError wraps the ScanError)
+        if rs.err.is_some() && !t.starts_with('\u{feff}') && !t.chars().take(2).any(|c| c == '\0') {
+            if let Ok(Err(le)) = std::panic::catch_unwind(|| saphyr::YamlDecoder::read(t.as_bytes()).decode().map(|_| ())) {
+                // (a decoding error has no position; only wrapped scanner errors are judged)
+                let at = std::error::Error::source(&le).and_then(|s| s.downcast_ref::<saphyr_parser::ScanError>()).map(|e| m3(e.marker())).unwrap_or(rs.err.as_ref().unwrap().at.clone());
+                let shown = format!("{le}");
+                let words: Vec<&str> = shown.split(|c: char| !c.is_ascii_digit()).filter(|w| !w.is_empty()).collect();
+                writeln!(w, "{}", json!({"k": "POS", "t": chars(t), "be": "decoder/LoadError", "evs": [], "err": [{"at": at, "words": words}], "marked": []})).unwrap();
+                nrec += 1;
+            }
+        }
         if rs.same_observable(&rb) {
             writeln!(w, "{}", rec(t, &rs, "both", marked)).unwrap();
             nrec += 1;
